@@ -15,7 +15,8 @@ Code modelled (as it is now; `fixed = false`):
   marked `meta.stressed`, its sample rate merged, and `Transmission.EnqueueSpan(sp)`;
 * `collect.StressRelief.GetSampleRate` (collect/stressRelief.go): `sampleRate ≤ 1` keeps everything,
   otherwise `keep = hash(traceID) ≤ MaxUint64 / sampleRate`; the hash (wyhash with the package's
-  seed) is a parameter: every span operation carries the hash of its trace id;
+  seed) is a parameter: every span operation carries the hash of its trace id; the sampling rate is
+  part of the state (`St.cfg`) and can be reloaded while relief is active;
 * `collect.CollectorWorker.processSpan` / `dealWithSentTrace`: a span whose trace is buffered is
   added to it; otherwise a recorded decision is followed (kept: merged sample rate, sent upstream;
   dropped: nothing); otherwise a new trace is buffered;
@@ -128,6 +129,9 @@ structure St where
   qIn : List Nat := []
   qPeer : List Nat := []
   stressed : Bool := false
+  /-- the stress-relief configuration in force (`StressRelief.sampleRate` after the last
+  `UpdateFromConfig`) -/
+  cfg : Cfg := ⟨0⟩
   /-- ghost: every request made so far -/
   wire : List Req := []
   /-- ghost: the spans kept by the stress decision: object id and the event as it arrived -/
@@ -141,6 +145,7 @@ structure Enq where
   obj : Nat
   key : BKey
   probe : Option Bool
+  rate : Nat
   deriving Repr, DecidableEq
 
 inductive Op where
@@ -150,6 +155,13 @@ inductive Op where
   | span (via : Via) (owner : Option Nat) (e : Ev) (h : Nat)
   | work
   | flush (tx : Tx)
+  /-- the configuration is reloaded with a new `StressRelief.SamplingRate`
+  (`reloadConfigs` → `StressRelief.UpdateFromConfig`) -/
+  | reload (srate : Nat)
+  /-- the normal sampler decides a trace the node has no decision for and does not buffer
+  (`makeDecision`: `trace.SetSampleRate(rate); sampleCache.Record(trace, keep, reason)`); otherwise
+  nothing happens -/
+  | decide (tid : Nat) (keep : Bool) (rate : Nat)
   deriving Repr
 
 inductive Out where
@@ -157,11 +169,12 @@ inductive Out where
   | span (o : Nat) (enqs : List Enq)
   | work (o : Option (Nat × Via)) (enqs : List Enq)
   | flush (n : Nat) (q : List (BKey × List (Nat × Ev))) (reqs : List Req)
+  | decided (done : Bool)
   deriving Repr
 
 def blank : Ev := ⟨⟨0, 0, 0, 0, 0, false, none, []⟩, 0⟩
 
-def init : St := { store := fun _ => blank }
+def init (c : Cfg) : St := { store := fun _ => blank, cfg := c }
 
 /-- `ProcessSpanImmediately`: the decision (recorded one, else the deterministic rule) and the
 decision record afterwards. -/
@@ -175,7 +188,7 @@ that stress relief keeps: queued upstream, then the probe. -/
 def keptStep (fixed : Bool) (s : St) (owner : Option Nat) (e0 e1 : Ev) (sent' : AList Nat Dec) :
     St × Out :=
   let o := s.next
-  let enqU : Enq := ⟨.up, o, keyOf e1, e1.c.probe⟩
+  let enqU : Enq := ⟨.up, o, keyOf e1, e1.c.probe, e1.rate⟩
   let up' := enq s.up (keyOf e1) o
   let kept' := s.kept ++ [(o, e0)]
   match fixed, owner with
@@ -188,7 +201,7 @@ def keptStep (fixed : Bool) (s : St) (owner : Option Nat) (e0 e1 : Ev) (sent' : 
     let e2 : Ev := { e1 with c := { e1.c with probe := some true, host := a } }
     ({ s with next := o + 1, store := upd s.store o e2, sent := sent', up := up',
               peer := enq s.peer (keyOf e2) o, kept := kept' },
-      .span o [enqU, ⟨.peer, o, keyOf e2, e2.c.probe⟩])
+      .span o [enqU, ⟨.peer, o, keyOf e2, e2.c.probe, e2.rate⟩])
   | true, none =>
     ({ s with next := o + 1, store := upd s.store o e1, sent := sent', up := up', kept := kept' },
       .span o [enqU])
@@ -197,7 +210,7 @@ def keptStep (fixed : Bool) (s : St) (owner : Option Nat) (e0 e1 : Ev) (sent' : 
     let p : Ev := { e1 with c := { e1.c with probe := some true, host := a } }
     ({ s with next := o + 2, store := upd (upd s.store o e1) (o + 1) p, sent := sent', up := up',
               peer := enq s.peer (keyOf p) (o + 1), kept := kept' },
-      .span o [enqU, ⟨.peer, o + 1, keyOf p, p.c.probe⟩])
+      .span o [enqU, ⟨.peer, o + 1, keyOf p, p.c.probe, p.rate⟩])
 
 /-- `Router.processEvent` for one arriving event. -/
 def spanStep (fixed : Bool) (c : Cfg) (s : St) (via : Via) (owner : Option Nat) (e : Ev) (h : Nat) :
@@ -210,7 +223,7 @@ def spanStep (fixed : Bool) (c : Cfg) (s : St) (via : Via) (owner : Option Nat) 
   else if e.c.tid = 0 then
     -- not part of a trace: upstream
     ({ s with next := o + 1, store := upd s.store o e0, up := enq s.up (keyOf e0) o },
-      .span o [⟨.up, o, keyOf e0, e0.c.probe⟩])
+      .span o [⟨.up, o, keyOf e0, e0.c.probe, e0.rate⟩])
   else if s.stressed then
     let ds := immediate c s.sent e.c.tid h
     if ds.1.keep = false then
@@ -224,7 +237,7 @@ def spanStep (fixed : Bool) (c : Cfg) (s : St) (via : Via) (owner : Option Nat) 
     | some a =>
       let e2 : Ev := { e0 with c := { e0.c with host := a } }
       ({ s with next := o + 1, store := upd s.store o e2, peer := enq s.peer (keyOf e2) o },
-        .span o [⟨.peer, o, keyOf e2, e2.c.probe⟩])
+        .span o [⟨.peer, o, keyOf e2, e2.c.probe, e2.rate⟩])
     | none =>
       match via with
       | .incoming => ({ s with next := o + 1, store := upd s.store o e0, qIn := s.qIn ++ [o] }, .span o [])
@@ -241,7 +254,7 @@ def processSpan (s : St) (o : Nat) (via : Via) : St × Out :=
       -- dealWithSentTrace
       if d.keep then
         ({ s with store := upd s.store o { e with rate := mergeRate e.rate d.rate }, up := enq s.up (keyOf e) o },
-          .work (some (o, via)) [⟨.up, o, keyOf e, e.c.probe⟩])
+          .work (some (o, via)) [⟨.up, o, keyOf e, e.c.probe, mergeRate e.rate d.rate⟩])
       else (s, .work (some (o, via)) [])
     | none => ({ s with live := s.live.put e.c.tid [o] }, .work (some (o, via)) [])
 
@@ -277,15 +290,22 @@ def flushStep (s : St) (tx : Tx) : St × Out :=
     ({ s with peer := [], wire := s.wire ++ sendAll s.store .peer s.peer },
       .flush (countObjs s.peer) (pendingView s.store s.peer) (sendAll s.store .peer s.peer))
 
-def step (fixed : Bool) (c : Cfg) (s : St) : Op → St × Out
-  | .stress on => ({ s with stressed := on }, .rule (effRate c) (bound c))
-  | .span via owner e h => spanStep fixed c s via owner e h
+/-- A decision of the normal sampler, as far as the decision record is concerned. -/
+def decideStep (s : St) (tid : Nat) (keep : Bool) (rate : Nat) : St × Out :=
+  if tid = 0 ∨ (s.live.get tid).isSome ∨ (s.sent.get tid).isSome then (s, .decided false)
+  else ({ s with sent := s.sent.put tid (recordOf ⟨keep, rate⟩) }, .decided true)
+
+def step (fixed : Bool) (s : St) : Op → St × Out
+  | .stress on => ({ s with stressed := on }, .rule (effRate s.cfg) (bound s.cfg))
+  | .span via owner e h => spanStep fixed s.cfg s via owner e h
   | .work => workStep s
   | .flush tx => flushStep s tx
+  | .reload n => ({ s with cfg := ⟨n⟩ }, .rule (effRate ⟨n⟩) (bound ⟨n⟩))
+  | .decide tid keep rate => decideStep s tid keep rate
 
-def runFrom (fixed : Bool) (c : Cfg) (s : St) (ops : List Op) : St :=
-  ops.foldl (fun s o => (step fixed c s o).1) s
+def runFrom (fixed : Bool) (s : St) (ops : List Op) : St :=
+  ops.foldl (fun s o => (step fixed s o).1) s
 
-def run (fixed : Bool) (c : Cfg) (ops : List Op) : St := runFrom fixed c init ops
+def run (fixed : Bool) (c : Cfg) (ops : List Op) : St := runFrom fixed (init c) ops
 
 end Refinery.Model.StressRoute
